@@ -154,6 +154,7 @@ func writeTargets(info *types.Info, n ast.Node, f func(e ast.Expr)) {
 type aliasInfo struct {
 	base  *ast.Ident
 	field *ast.SelectorExpr
+	pkgv  types.Object // set instead of base/field: the local is a pointer to this package-level variable (d := &x)
 }
 
 func collectAliases(info *types.Info, body ast.Node, params map[types.Object]bool) map[types.Object]aliasInfo {
@@ -166,6 +167,20 @@ func collectAliases(info *types.Info, body ast.Node, params map[types.Object]boo
 		for i, l := range as.Lhs {
 			id, ok := l.(*ast.Ident)
 			if !ok {
+				continue
+			}
+			if u, ok := as.Rhs[i].(*ast.UnaryExpr); ok && u.Op == token.AND {
+				if pid, ok := u.X.(*ast.Ident); ok {
+					if po := info.Uses[pid]; po != nil && isPkgVar(po) {
+						o := info.Defs[id]
+						if o == nil {
+							o = info.Uses[id]
+						}
+						if o != nil {
+							al[o] = aliasInfo{pkgv: po}
+						}
+					}
+				}
 				continue
 			}
 			sel, ok := as.Rhs[i].(*ast.SelectorExpr)
@@ -186,7 +201,7 @@ func collectAliases(info *types.Info, body ast.Node, params map[types.Object]boo
 					o = info.Uses[id]
 				}
 				if o != nil {
-					al[o] = aliasInfo{base, sel}
+					al[o] = aliasInfo{base: base, field: sel}
 				}
 			}
 		}
@@ -216,6 +231,10 @@ func collectFacts(info *types.Info, files []*ast.File, pkg *types.Package) *pkgF
 				}
 				if a, ok := aliases[o]; ok && (first != nil || e != ast.Expr(id)) {
 					// a write through a local alias of a field (element / pointee write, not re-binding the local)
+					if a.pkgv != nil {
+						pf.mutVars[a.pkgv] = true
+						return
+					}
 					if sel := info.Selections[a.field]; sel != nil {
 						pf.mutFields[sel.Obj()] = true
 					}
@@ -296,6 +315,12 @@ func (r *rw) accesses(st ast.Stmt) string {
 				return
 			}
 			if a, ok := r.alias[r.info.Uses[id]]; ok && (first != nil || e != ast.Expr(id)) {
+				if a.pkgv != nil {
+					if r.pk.mutVars[a.pkgv] && a.pkgv.Pkg() == r.pk.pkg {
+						note("&"+a.pkgv.Name(), a.pkgv.Pkg().Name()+"."+a.pkgv.Name(), true)
+					}
+					return
+				}
 				if sel := r.info.Selections[a.field]; sel != nil && r.pk.mutFields[sel.Obj()] {
 					tn := "?"
 					if nt := namedOf(r.info.Uses[a.base].Type()); nt != nil {
